@@ -447,6 +447,18 @@ def matLine : P String := do
   let v := v.failIf (mfa != compatB a (prefixPF 0 f) || mfb != compatB b (prefixPF 0 f)) s!"Factored::match(f,pf) not_compatibility f={f} a={a} b={b} impl={mfa},{mfb}"
   pure v.render
 
+/-- `mrg <a> <b> | <merged>` : the library's `merge(pf, pf)` against the model (`mergePFs`) and against what it must denote
+    (`mergePFs_lookup`: factor by factor the right operand's value if it names the factor, else the left one's) -/
+def mrgLine : P String := do
+  let a ← pf; let b ← pf; P.bar; let m ← pf; P.eof
+  let v : Verdict := { tag := if a.isEmpty || b.isEmpty then "mrg trivial" else "mrg" }
+  let v := v.diffIf (mergePFs a b != m) s!"Factored::merge model={mergePFs a b} impl={m}"
+  let bound := ((a ++ b ++ m).map (·.1)).foldl max 0 + 1
+  let join (i : Nat) : Option Nat := match lookup b i with | some x => some x | none => lookup a i
+  let v := v.failIf (!((List.range bound).all (fun i => lookup m i == join i))) s!"Factored::merge not_join a={a} b={b} impl={m}"
+  let v := v.failIf (!((m.zip (m.drop 1)).all (fun p => decide (p.1.1 < p.2.1)))) s!"Factored::merge keys_not_ascending impl={m}"
+  pure v.render
+
 /-- `ism <kind> <ids> <cont> | visited values size` : IndexSkipMap walk against the as-written model (`skipWalkIds`); with an ascending
     skip list the clause is the documented one (`skipWalkIds_spec`): exactly the unlisted container positions, in order -/
 def ismLine : P String := do
@@ -489,6 +501,7 @@ def handle (toks : List String) : String :=
     | "imi" :: rest => P.run imiLine rest
     | "fmc" :: rest => P.run fmcLine rest
     | "mat" :: rest => P.run matLine rest
+    | "mrg" :: rest => P.run mrgLine rest
     | "ism" :: rest => P.run ismLine rest
     | "srt" :: rest => P.run srtLine rest
     | _ => none
